@@ -120,17 +120,19 @@ impl Visitor for BadStringEscapeVisitor {
                         // `\` before a line break continues the string; in a CRLF file the break starts with `\r`
                         "a" | "b" | "f" | "n" | "r" | "t" | "v" | "\\" | "\r" => {},
                         "0" | "1" | "2" | "3" | "4" | "5" | "6" | "7" | "8" | "9" => {
-                            if captures[2].len() > 1 {
-                                let hundreds = captures[1].parse::<u16>().unwrap_or(0) * 100;
-                                let tens = captures[2][1..2].parse::<u16>().unwrap_or(0);
-                                if hundreds + tens > 0xff {
-                                    self.sequences.push(
-                                        StringEscapeSequence{
-                                            range: (start, start + 4),
-                                            issue: ReasonWhy::DecimalTooHigh,
-                                        }
-                                    );
-                                }
+                            // A decimal escape is the first digit plus at most two more decimal digits
+                            let digits = captures[1]
+                                .chars()
+                                .chain(captures[2].chars().take_while(char::is_ascii_digit).take(2))
+                                .collect::<String>();
+
+                            if digits.len() == 3 && digits.parse::<u16>().unwrap_or(0) > 0xff {
+                                self.sequences.push(
+                                    StringEscapeSequence{
+                                        range: (start, start + 4),
+                                        issue: ReasonWhy::DecimalTooHigh,
+                                    }
+                                );
                             }
                         },
                         "\"" => {
